@@ -411,16 +411,15 @@ Section Theorems.
     is_prefix_op op = true ->
     pat_atoms (pattern_of w) = PatOk a ->
     exists r, pexp_eval e (mkP name i (PExp op w)) = OOk (r, None) /\
-      ((exists pre, cur v = pre ++ r /\ pmatch (toks a) pre) \/
-       (r = cur v /\ forall pre suf, cur v = pre ++ suf -> ~ pmatch (toks a) pre)).
+              is_prefix_removal (is_longest_op op) (toks a) (cur v) r.
   Proof.
     intros e name i op w v a Hn Hl Hv Hop Hp.
     rewrite (param_exp_scalar upper lower quote e name i _ v Hn Hl Hv). cbv zeta.
     destruct op; try discriminate Hop; unfold exp_arg; cbn [is_pat_op];
       rewrite (pat_ok_in_model _ _ Hp); cbn [negb rem_case_elems remove_elems map opt_out obind join];
       eexists; (split; [reflexivity|]).
-    - apply (remove_prefix_sound (cur v) (pattern_of w) a true Hp).
-    - apply (remove_prefix_sound (cur v) (pattern_of w) a false Hp).
+    - apply (remove_prefix_correct (cur v) (pattern_of w) a true Hp).
+    - apply (remove_prefix_correct (cur v) (pattern_of w) a false Hp).
   Qed.
 
   Definition case_conv_of (op : expop) : option ((N -> N) * bool) :=
@@ -495,12 +494,13 @@ Section Theorems.
     split_anchor false orig (pattern_of orig) = (ABegin, p) ->
     pat_atoms p = PatOk a ->
     exists r, pexp_eval e (mkP name i (PRepl false orig w)) = OOk (r, None) /\
-      ((exists pre suf, s = pre ++ suf /\ pmatch (toks a) pre /\ r = literal_of w ++ suf)
+      ((exists pre suf, s = pre ++ suf /\ pmatch (toks a) pre /\ r = literal_of w ++ suf /\
+          forall pre' suf', s = pre' ++ suf' -> pmatch (toks a) pre' -> (length pre' <= length pre)%nat)
        \/ (r = s /\ forall pre suf, s = pre ++ suf -> ~ pmatch (toks a) pre)).
   Proof.
     intros e name i orig w s p a Hn Hl Hv Hsa Hp. eexists. split.
     - apply (replace_param_eval e name i orig w s ABegin p a Hn Hl Hv Hsa); [discriminate|exact Hp].
-    - apply replace_anchored_begin_sound.
+    - apply replace_anchored_begin_correct.
   Qed.
 
   Lemma replace_first_param : forall e name i orig w s p a,
@@ -528,4 +528,133 @@ Section Theorems.
     intros e name i all orig w Hn Hl Hv.
     rewrite (param_exp_scalar upper lower quote e name i _ None Hn Hl Hv). reflexivity.
   Qed.
+
+  (* ------------------------------------------------------------------ element-wise forms: "${a[@]op}" "${a[*]op}" ${a[@]op} "$@" ... *)
+
+  (* the operator as a function on one string *)
+  Definition elem_op (op : expop) (arg : str) : option (str -> str) :=
+    match op with
+    | RemSP => Some (fun s => remove_pattern s arg false true)
+    | RemLP => Some (fun s => remove_pattern s arg false false)
+    | RemSS => Some (fun s => remove_pattern s arg true true)
+    | RemLS => Some (fun s => remove_pattern s arg true false)
+    | UpFirst | UpAll | LowFirst | LowAll =>
+        let conv := match op with UpFirst | UpAll => upper | _ => lower end in
+        let all := match op with UpAll | LowAll => true | _ => false end in
+        match pat_atoms arg with
+        | PatOk a => Some (bash_case conv all (match_char a))
+        | PatErr => Some (fun s => s)
+        | PatOut => None
+        end
+    | _ => None
+    end.
+
+  Lemma rem_case_elems_map : forall op arg elems,
+    is_pat_op op = true ->
+    rem_case_elems upper lower op arg elems = option_map (fun f => map f elems) (elem_op op arg).
+  Proof.
+    intros op arg elems H. destruct op; try discriminate H; try reflexivity;
+      unfold rem_case_elems, case_conv_elems, elem_op; destruct (pat_atoms arg); simpl;
+      try reflexivity; rewrite map_id; reflexivity.
+  Qed.
+
+  Definition list_of_subject (e : env) (name : str) (i : idx) : option (list str * bool) :=
+    (* (elements, star) of $@ $* ${a[@]} ${a[*]} for an indexed array / the positional parameters *)
+    if is_params_name name then
+      Some (match env_get e name with VIdx l _ => l | _ => [] end, str_eqb name STAR)
+    else match i, env_get e name with
+         | IAt, VIdx l _ => Some (l, false)
+         | IStar, VIdx l _ => Some (l, true)
+         | _, _ => None
+         end.
+
+  Lemma list_elems_unsliced : forall e name i op w l star,
+    list_of_subject e name i = Some (l, star) ->
+    list_elems e (mkP name i (PExp op w)) = Some (l, star).
+  Proof.
+    intros e name i op w l star H. unfold list_elems, list_of_subject in *. cbn [p_name p_idx p_op pop_sliced pop_off pop_len] in *.
+    destruct (is_params_name name).
+    - inversion H; subst. unfold slice_elems. reflexivity.
+    - destruct i; try discriminate; cbn [is_list_idx]; destruct (env_get e name); try discriminate;
+        inversion H; subst; unfold slice_elems; reflexivity.
+  Qed.
+
+  (* quoted: one field per element ([@], "$@"), or one field joined with the first IFS character ([*], "$*");
+     each element is what the scalar operator gives for it *)
+  Lemma elementwise_quoted : forall e name i op w l star f,
+    list_of_subject e name i = Some (l, star) ->
+    is_pat_op op = true ->
+    pat_in_model (exp_arg op w) = true ->
+    elem_op op (exp_arg op w) = Some f ->
+    expand_word upper lower quote e (mkP name i (PExp op w)) true =
+    OOk (if star then [ifs_join e (map f l)] else map f l, None).
+  Proof.
+    intros e name i op w l star f Hl Hop Hin Hf.
+    unfold expand_word, quoted_elem_fields. cbn [p_op].
+    rewrite (list_elems_unsliced e name i op w l star Hl).
+    unfold per_elem_ops. cbn [p_op]. rewrite Hop, Hin. cbn [negb].
+    rewrite (rem_case_elems_map op _ l Hop), Hf. reflexivity.
+  Qed.
+
+  (* the same operator on a scalar holding one element *)
+  Lemma elementwise_scalar : forall e name op w x f,
+    is_params_name name = false ->
+    env_get e name = VStr x ->
+    is_pat_op op = true ->
+    pat_in_model (exp_arg op w) = true ->
+    elem_op op (exp_arg op w) = Some f ->
+    pexp_eval e (mkP name INone (PExp op w)) = OOk (f x, None).
+  Proof.
+    intros e name op w x f Hn Hv Hop Hin Hf.
+    assert (Hb : bash_value (env_get e name) INone = PVal (Some x)) by (rewrite Hv; reflexivity).
+    rewrite (param_exp_scalar upper lower quote e name INone _ (Some x) Hn eq_refl Hb). cbv zeta.
+    cbn [cur]. destruct op; try discriminate Hop; rewrite Hin; cbn [negb];
+      rewrite (rem_case_elems_map _ _ [x] Hop), Hf; reflexivity.
+  Qed.
+
+  (* unquoted ${a[@]op} / ${a[*]op}: the converted elements are joined (space, or the first IFS character for the star form)
+     and the result is split at IFS *)
+  Lemma elementwise_unquoted : forall e name i op w l star f,
+    is_params_name name = false ->
+    list_of_subject e name i = Some (l, star) ->
+    is_pat_op op = true ->
+    pat_in_model (exp_arg op w) = true ->
+    elem_op op (exp_arg op w) = Some f ->
+    expand_word upper lower quote e (mkP name i (PExp op w)) false =
+    OOk (split_fields (ifs_of e) (if star then ifs_join e (map f l) else join SP (map f l)) [], None).
+  Proof.
+    intros e name i op w l star f Hn Hl Hop Hin Hf.
+    unfold expand_word, unquoted_elem_fields. cbn [p_op].
+    unfold list_of_subject in Hl. rewrite Hn in Hl.
+    unfold param_exp. rewrite (eff_idx_plain name i _ Hn). cbn [p_name p_idx p_op].
+    destruct i; try discriminate Hl; destruct (env_get e name) as [| |l0 ix|] eqn:Ev; try discriminate Hl;
+      inversion Hl; subst; cbn [is_list_idx is_star pop_sliced pop_off pop_len is_set obind];
+      unfold slice_elems; cbn [negb obind];
+      (destruct op; try discriminate Hop; rewrite Hin; cbn [negb];
+       rewrite (rem_case_elems_map _ _ l Hop), Hf; reflexivity).
+  Qed.
 End Theorems.
+
+(* ------------------------------------------------------------------ splitting a space-joined list = splitting each element *)
+
+Lemma split_fields_sep : forall ifs a b cur,
+  in_str 32 ifs = true ->
+  split_fields ifs (a ++ 32 :: b) cur = split_fields ifs a cur ++ split_fields ifs b [].
+Proof.
+  intros ifs a b cur H. revert cur. induction a as [|c a IH]; intros cur; simpl.
+  - rewrite H. destruct cur; reflexivity.
+  - destruct (in_str c ifs).
+    + destruct cur; rewrite IH; reflexivity.
+    + apply IH.
+Qed.
+
+Lemma split_join_space : forall ifs xs,
+  in_str 32 ifs = true ->
+  split_fields ifs (join SP xs) [] = flat_map (fun x => split_fields ifs x []) xs.
+Proof.
+  intros ifs xs H. induction xs as [|x xs IH]; [reflexivity|].
+  destruct xs as [|y xs].
+  - simpl. rewrite app_nil_r. reflexivity.
+  - change (join SP (x :: y :: xs)) with (x ++ 32 :: join SP (y :: xs)).
+    rewrite split_fields_sep by exact H. rewrite IH. reflexivity.
+Qed.
